@@ -79,6 +79,8 @@ def dtype_cls(d, default="f"):
         return "i"
     if d is bool:
         return "b"
+    if type(d).__name__ == "TypeTok" and getattr(d, "name", None) in ("float", "int", "bool"):
+        return {"float": "f", "int": "i", "bool": "b"}[d.name]      # the python builtins used as dtype= (dtype=bool)
     raise Unsupported(f"dtype {d!r}")
 
 
@@ -476,6 +478,8 @@ def full(shape, value, dtype=None):
         if value.rank != 0:
             raise Unsupported("full with non-scalar tensor")
         value = value.at()
+    if isinstance(value, Inf):
+        value = _cast_like(value, d)          # torch.full(..., float("-inf")): the constant -INF (A1b)
     return const_tensor(tuple(shape), d, value)
 
 
